@@ -9,7 +9,7 @@ pub fn new_default_complete_constraints_encoder<T>() -> Box<dyn ConstraintsEncod
 where
     T: LabelType,
 {
-    Box::new(aux_var_constraints_encoder::new_for_conflict_freeness())
+    Box::new(aux_var_constraints_encoder::new_for_complete_semantics())
 }
 
 pub mod exp_constraints_encoder;
